@@ -4,6 +4,8 @@ import (
 	"fmt"
 	"strings"
 	"time"
+
+	"verif/vsched"
 )
 
 // SeqSpec describes an explicit-state search over operation sequences of a sequential component.
@@ -43,23 +45,10 @@ func RunSeq(sp SeqSpec, deadline time.Time, maxFail int) SeqResult {
 	res := SeqResult{Exhaustive: true, Outcomes: map[string]int{}}
 
 	build := func(hist []int) (interface{}, string, bool) {
-		s := sp.New()
+		s, obs, ok, steps := runPath(sp, hist, nil)
+		res.ReplaySteps += steps
 
-		var (
-			obs string
-			ok  = true
-		)
-
-		for _, op := range hist {
-			obs, ok = sp.Apply(s, op)
-			res.ReplaySteps++
-
-			if !ok {
-				return s, obs, false
-			}
-		}
-
-		return s, obs, true
+		return s, obs, ok
 	}
 
 	init := sp.New()
@@ -143,19 +132,57 @@ func opClass(name string) string {
 	return name
 }
 
+// runPath builds a fresh instance and applies hist to it. The whole path runs as one controlled thread under the
+// scheduler, so that an operation that never returns (a lock an earlier call left held) is a detected deadlock
+// and a failure of that operation, not a hang of the search.
+func runPath(sp SeqSpec, hist []int, each func(i int, obs string)) (s interface{}, obs string, ok bool, steps int) {
+	ok = true
+	cur := -1
+
+	r := vsched.Replay(nil, func() {
+		s = sp.New()
+
+		for i, op := range hist {
+			cur = i
+			obs, ok = sp.Apply(s, op)
+			steps++
+
+			if each != nil {
+				each(i, obs)
+			}
+
+			if !ok {
+				return
+			}
+		}
+	})
+
+	what := "constructor"
+	if cur >= 0 {
+		what = sp.Ops[hist[cur]]
+	}
+
+	switch {
+	case r.Deadlock:
+		return s, fmt.Sprintf("%s never returns (deadlock): %v", what, r.Blocked), false, steps
+	case r.Panic != nil:
+		return s, fmt.Sprintf("%s panicked: %v", what, r.Panic), false, steps
+	case r.Horizon:
+		return s, fmt.Sprintf("%s: step horizon reached", what), false, steps
+	}
+
+	return s, obs, ok, steps
+}
+
 // ReplaySeq applies a recorded sequence and returns the first mismatch.
 func ReplaySeq(sp SeqSpec, seq []int, verbose bool) (string, bool) {
-	s := sp.New()
-
-	for i, op := range seq {
-		obs, ok := sp.Apply(s, op)
+	_, obs, ok, _ := runPath(sp, seq, func(i int, obs string) {
 		if verbose {
-			fmt.Printf("  %2d %-28s -> %s\n", i, sp.Ops[op], obs)
+			fmt.Printf("  %2d %-28s -> %s\n", i, sp.Ops[seq[i]], obs)
 		}
-
-		if !ok {
-			return obs, false
-		}
+	})
+	if !ok {
+		return obs, false
 	}
 
 	return "", true
